@@ -400,6 +400,16 @@ def lists_in(x, path, out):
             lists_in(y, '%s[%d]' % (path, i), out)
 
 
+def call_hard(f, args, kwargs, t):
+    """like common.call, but the alarm repeats: a Timeout swallowed by a bare `except:` inside the library is raised again"""
+    import signal
+    signal.setitimer(signal.ITIMER_REAL, t, 0.2)
+    try:
+        return f(*args, **kwargs)
+    finally:
+        signal.setitimer(signal.ITIMER_REAL, 0)
+
+
 def run_case(f, args, kwargs, timeout):
     """call f; returns (status, result, changed) where changed = [(path, before, after)] over every ndarray argument"""
     arrs = []
@@ -415,7 +425,7 @@ def run_case(f, args, kwargs, timeout):
     res, status = None, 'ok'
     try:
         with contextlib.redirect_stdout(io.StringIO()), contextlib.redirect_stderr(io.StringIO()):
-            res = call(f, *args, _t=timeout, **kwargs)
+            res = call_hard(f, args, kwargs, timeout)
     except Timeout:
         status = 'timeout'
     except BaseException as e:
@@ -443,7 +453,7 @@ def shares(res, arrs):
     for rp, r in outs:
         for ap, a in arrs:
             try:
-                if r.size and a.size and np.shares_memory(r, a):
+                if r.size and a.size and np.may_share_memory(r, a) and np.shares_memory(r, a, max_work=100000):
                     hit.append((rp, ap))
             except Exception:
                 pass
@@ -507,6 +517,14 @@ def run(ctx):
     rounds = ctx.scale(1, 4)
     dyn_mut, dyn_mut_cf, exercised, completed, not_ex, shared = {}, {}, {}, {}, {}, {}
     t_dyn = time.time()
+    # a runaway allocation inside the library must end as MemoryError in that call, not take the machine down
+    import resource
+    old_as = resource.getrlimit(resource.RLIMIT_AS)
+    try:
+        resource.setrlimit(resource.RLIMIT_AS, (8 * 2 ** 30, old_as[1]))
+    except Exception:
+        pass
+    dyn_deadline = t_dyn + (55.0 if not ctx.thorough else 700.0)
     for rnd in range(rounds):
         for nm in dyn_public:
             f = getattr(bct, nm)
@@ -519,23 +537,31 @@ def run(ctx):
                     fams, build = ['-'], (lambda g, M: [((), {})])
             budget = time.time() + (6.0 if not ctx.thorough else 40.0)
             for fam in fams:
-                if time.time() > budget:
+                if time.time() > budget or time.time() > dyn_deadline:
                     ctx.count('dynamic:budget_cut')
                     break
-                g = Gen(ctx.nprng, int(ctx.nprng.randint(5, 8)) if rnd else 6)
-                M = getattr(g, fam)() if fam != '-' else None
-                if nm == 'retrieve_shortest_path':
-                    try:
+                fam_seed = int(ctx.nprng.randint(0, 2 ** 31 - 1))
+                fam_n = int(ctx.nprng.randint(5, 8)) if rnd else 6
+
+                def fresh():
+                    """the same family member and variants, rebuilt from the same seed: no call sees what another one left behind"""
+                    g = Gen(np.random.RandomState(fam_seed), fam_n)
+                    M = getattr(g, fam)() if fam != '-' else None
+                    if nm == 'retrieve_shortest_path':
                         _, hops, Pmat = bct.distance_wei_floyd(M)
-                        variants = [((0, 3, hops, Pmat), {}), ((2, 2, hops, Pmat), {})]
-                    except Exception:
-                        variants = []
-                else:
+                        return [((0, 3, hops, Pmat), {}), ((2, 2, hops, Pmat), {})]
+                    return build(g, M)
+                try:
+                    nvar = len(fresh())
+                except Exception as e:
+                    ctx.count('dynamic:builder_error')
+                    nvar = 0
+                variants = []
+                for vi in range(nvar):
                     try:
-                        variants = build(g, M)
-                    except Exception as e:
+                        variants.append(fresh()[vi])
+                    except Exception:
                         ctx.count('dynamic:builder_error')
-                        variants = []
                 for args, kwargs in variants:
                     has_copy_false = kwargs.get('copy', True) is False
                     case = {'fn': nm, 'family': fam, 'args': enc(list(args)), 'kwargs': enc(kwargs)}
@@ -579,6 +605,10 @@ def run(ctx):
             if exercised.get(nm, 0) == 0:
                 not_ex[nm] = 'no argument could be built'
     scipy.io.savemat = real_savemat
+    try:
+        resource.setrlimit(resource.RLIMIT_AS, old_as)
+    except Exception:
+        pass
     ctx.extra['dynamic_wall_s'] = round(time.time() - t_dyn, 1)
 
     # ---- 4. static vs dynamic
